@@ -91,7 +91,7 @@ REGEX_SPECS = [
     ("sp_ncases", "regex/StringMatcher.cpp",      # number of case labels in that switch (so an unmodelled new case breaks a proof)
      r"for \(const char \* ptr = str; \*ptr != '\\0'; ptr\+\+\)[\s\S]*?switch\(c\)\s*\{([\s\S]*?)default:", r"count:case\s+'(\\?.)'\s*:"),
     ("sp_regex_prefix", "regex/StringMatcher.cpp", r"regexPattern\s*=\s*\"([^\"]*)\"\s*;", "cstr"),
-    ("sp_regex_suffix", "regex/StringMatcher.cpp", r"regexPattern\s*\+=\s*\"([^\"]*)\"\s*;", "cstr"),
+    ("sp_regex_suffix", "regex/StringMatcher.cpp", r"//\s*just in case[^\n]*\n\s*regexPattern\s*\+=\s*\"([^\"]*)\"\s*;", "cstr"),
     ("sp_negate_char", "regex/StringMatcher.cpp", r"if \(str\[0\] == '(\\?.)'\)\s*\{\s*_flags\.SetBit\(STRINGMATCHER_FLAG_NEGATE\)", "cchar"),
     ("sp_rawregex_char", "regex/StringMatcher.cpp", r"if \(str\[0\] == '(\\?.)'\) str\+\+;\s*//\s*note that I deliberately", "cchar"),
     ("sp_range_open", "regex/StringMatcher.cpp", r"if \(str\[0\] == '(\\?.)'\)\s*\{\s*const char \* rBracket", "cchar"),
